@@ -293,9 +293,12 @@ class AlterOracle:
             "UNIQUE (nc)": [("KW", "ADD"), ("KW", "UNIQUE"), P["("], (nc, "col1"), P[")"]],
             "FK (a)": [("KW", "ADD"), ("KW", "FOREIGN"), ("KW", "KEY"), P["("], (C["a"], "col1"), P[")"], ("KW", "REFERENCES"), (C["o"], "ref_table"),
                        P["("], (C["x"], "ref_col1"), P[")"]],
+            "INDEX (a)": "index",
         }
         A, B, Cc = C["a"].word, C["b"].word, C["c"].word
         scenarios = [
+            (["INDEX (a)"], [A, B, Cc]),
+            (["ADD nc", "INDEX (a)", "ADD nd"], [A, B, Cc, nc.word, nd.word]),
             (["ADD nc", "ADD nd"], [A, B, Cc, nc.word, nd.word]),
             (["ADD nc", "FK (nc)"], [A, B, Cc, nc.word]),
             (["FK (a)", "ADD nc", "FK (nc)"], [A, B, Cc, nc.word]),
@@ -312,12 +315,19 @@ class AlterOracle:
                 sch = {0: C["s1"]["same"], 1: C["s2"]["same"], 2: None, 3: C["s1"]["same"]}[ti]
 
                 def build(s, a):
+                    if tails[name] == "index":
+                        # CREATE INDEX ix ON [schema .] t ( a )
+                        a = s.words(a, "ihead", [("KW", "CREATE"), ("KW", "INDEX"), (C["ix"], "ixname"), ("KW", "ON")])
+                        if sch is not None:
+                            a = s.words(a, "ihead", [(sch, "schema"), P["."]], begin=False)
+                        a = s.words(a, "ihead", [(C["u"] if ti == 3 else C["t"]["same"], "name")], begin=False)
+                        return s.words(a, "act:INDEX", [P["("], (C["a"], "col1"), P[")"]])
                     a = s.words(a, "head", [("KW", "ALTER"), ("KW", "TABLE")])
                     if sch is not None:
                         a = s.words(a, "head", [(sch, "schema"), P["."]], begin=False)
                     a = s.words(a, "head", [(C["u"] if ti == 3 else C["t"]["same"], "name")], begin=False)
                     return s.words(a, "act", tails[name], begin=False)
-                cache[(ti, name)] = parse_linear(ctx, f"seq-{ti}-{name}", build, one_segment=True)
+                cache[(ti, name)] = parse_linear(ctx, f"seq-{ti}-{name}", build, one_segment=tails[name] != "index")
             return cache[(ti, name)]
         want_keys = {"name", "type", "size", "references", "unique", "nullable", "default", "check"}
         for ti in (2, 0):
@@ -348,8 +358,31 @@ class AlterOracle:
                     bad = f"columns {show([c['name'] for c in cols])!r}, declared {show(exp)!r}"
                 if bad is None and names[-1] == "UNIQUE (nc)" and not any(deep_eq_safe(c["name"], nc.word) and c["unique"] is True for c in cols):
                     bad = "the added column is not flagged unique"
+                if bad is None and any(n_ == "INDEX (a)" for n_ in names):
+                    ixs = out[ti].get("index")
+                    if not (isinstance(ixs, list) and len(ixs) == 1 and isinstance(ixs[0], dict) and deep_eq_safe(ixs[0].get("columns"), [A])):
+                        bad = f"the index is not attached to its table: index = {show(ixs)!r}"[:300]
                 if bad:
                     ex.add("O-final", f"alter sequence `{label}`: the table is not what the statements declare one after the other", bad, wit)
+                    continue
+                # ... and no output mode turns the script into an error or changes the common part of the target table
+                for mode in ("bigquery", "hql", "oracle", "mssql"):
+                    self.checked += 1
+                    try:
+                        om = self.fmt(ctx, copy.deepcopy(self.base) + [copy.deepcopy(stmt(ti, n)) for n in names], mode)
+                    except (PyRaise, ShapeMismatch) as e:
+                        ex.add("O-mode", f"alter sequence `{label}`: mode `{mode}` turns a successful script into an error", f"{e}", wit + f"   (output_mode={mode})")
+                        continue
+                    except (LexUnknown, NonUniform) as e:
+                        raise AnalysisError(f"alter sequences: output layer outside the interpreted subset on `{label}` in mode {mode}: {e}")
+                    tm = om[ti] if isinstance(om, list) and len(om) == 4 else None
+                    same_cols = tm is not None and isinstance(tm.get("columns"), list) and len(tm["columns"]) == len(cols) and all(
+                        deep_eq_safe(a_.get(k_), b_.get(k_)) for a_, b_ in zip(tm["columns"], cols) for k_ in want_keys)
+                    same_index = mode == "mssql" or deep_eq_safe(tm.get("index") if tm else None, out[ti].get("index"))     # (mssql adds `clustered`)
+                    if not same_cols or not same_index:
+                        ex.add("O-mode", f"alter sequence `{label}`: columns / index of the target differ from the default mode (mode {mode})",
+                               f"default: columns {show([c['name'] for c in cols])!r}, index {show(out[ti].get('index'))!r}; {mode}: "
+                               f"{show([c.get('name') for c in (tm or {}).get('columns', [])])!r}, index {show((tm or {}).get('index'))!r}"[:500], wit + f"   (output_mode={mode})")
 
     def finish(self, ex):
         """evaluate the output layer for every accepted statement (in parallel worker processes forked from this one)"""
